@@ -258,7 +258,7 @@ theorem rows_protocol_fresh (hW : WOk W) (S : Screen) (hinv : emitInvB W S = tru
     ∃ q rb cs q', Parser.new S.cur.size.rows S.cur.size.cols sb = .ok q ∧
       S.rowsFormatted 0 S.cur.size.cols = .ok rb ∧ S.cursorStateFormatted = .ok cs ∧
       q.process W cb (protocolStream S rb cs) = .ok q' ∧ Shows q'.screen S := by
-  have hS := srcScreen_of_inv hinv hoff (Or.inl hin)
+  have hS := srcScreen_of_inv hinv hoff
   have hI : Inv W S := by
     simp only [emitInvB, invPlusB, Bool.and_eq_true] at hinv
     exact hinv.1.1.1.1.1
